@@ -79,6 +79,16 @@ def ts_in(sec, zone=None):
     return t.tz_convert(zone) if zone else t
 
 
+def entry_ts(e, zone=None, nat=False):
+    """a universe entry date: an instant (optionally expressed in another zone), or 'no date' as None / pandas NaT"""
+    if e is None:
+        if nat:
+            import pandas as pd
+            return pd.NaT
+        return None
+    return ts_in(e, zone)
+
+
 def secs(t):
     """pandas Timestamp (UTC) -> integer seconds."""
     return int(t.value // 10 ** 9)
